@@ -13,7 +13,8 @@ from typing import Any
 
 from . import seams
 
-SCRATCH_ROOT = os.environ.get("SVSIM_SCRATCH", "/dev/shm/semverif")
+from . import scratch_root as _scratch_root
+SCRATCH_ROOT = _scratch_root()
 
 
 class SimFault(Exception):
